@@ -238,6 +238,32 @@ func runC15(c *Ctx) {
 				unit = append(unit, fd)
 			}
 		}
+		// … and the other phases that caller runs (render, then emit): the unexported functions of the package it calls
+		for _, caller := range append([]*ast.FuncDecl{}, unit[1:]...) {
+			ast.Inspect(caller.Body, func(n ast.Node) bool {
+				call, ok := n.(*ast.CallExpr)
+				if !ok {
+					return true
+				}
+				fn := calleeOf(info, call)
+				if fn == nil || fn.Pkg() != p.Types || fn.Exported() {
+					return true
+				}
+				for _, fd := range allFuncDecls(p) {
+					if info.Defs[fd.Name] != types.Object(fn) || fd.Body == nil {
+						continue
+					}
+					seen := false
+					for _, u := range unit {
+						seen = seen || u == fd
+					}
+					if !seen && len(unit) < 8 {
+						unit = append(unit, fd)
+					}
+				}
+				return true
+			})
+		}
 		writerFn := gen
 		key := funcKey(p, gen)
 		type sited struct {
@@ -429,12 +455,13 @@ func runC15(c *Ctx) {
 		var goStmt *ast.GoStmt
 		ast.Inspect(run.Body, func(n ast.Node) bool {
 			if gs, ok := n.(*ast.GoStmt); ok {
-				if fl, ok := gs.Call.Fun.(*ast.FuncLit); ok && strings.Contains(nodeText(c.fset, fl.Body), ".HandleEvent(") {
+				// (the worker may be written in place, held in a local — go processEvent(event) — or be a declared function)
+				if fl := goTarget(p, run.Body, gs.Call); fl != nil && strings.Contains(nodeText(c.fset, fl.Body), ".HandleEvent(") {
 					// innermost
 					inner := true
 					ast.Inspect(fl.Body, func(m ast.Node) bool {
 						if g2, ok := m.(*ast.GoStmt); ok && g2 != gs {
-							if f2, ok := g2.Call.Fun.(*ast.FuncLit); ok && strings.Contains(nodeText(c.fset, f2.Body), ".HandleEvent(") {
+							if f2 := goTarget(p, run.Body, g2.Call); f2 != nil && strings.Contains(nodeText(c.fset, f2.Body), ".HandleEvent(") {
 								inner = false
 							}
 						}
